@@ -310,6 +310,16 @@ def run(chk):
         a = gen_str(rng, 10)
         b = mutate(rng, a) if rng.random() < 0.6 else gen_str(rng, 10)
         pairs.append((a, b))
+    # digit runs far longer than any machine integer (and than CPython's limit for str -> int conversion): RPM never
+    # converts a segment to a number, it strips zeros and compares lengths, then text
+    for n in (19, 20, 39, 310, 4299, 4300, 4301, 4500, 9000):
+        d = rng.choice("1234567")
+        base = d * n
+        longs = [("2." + base, "2." + base[:-1] + "8"), ("0" * n + "1", "1"), (base, base + "0"), ("1." + "0" * n, "1." + "0" * (n + 1)),
+                 (base + "a", base + "b"), ("1~" + base, "1~" + base), (base + "." + base, base + "." + base[:-1] + "9")]
+        for pr in (rng.sample(longs, 2) if quick else longs):
+            pairs.append(pr if rng.random() < 0.5 else (pr[1], pr[0]))
+            chk.count("pair:digit-run>=%d" % (4301 if n > 4300 else 19))
     impl = []
     for a, b in pairs:
         r = _rpm_vercmp(a, b)
@@ -374,17 +384,39 @@ def run(chk):
         # epochs also beyond one digit, beyond 256 (small-integer objects are shared up to there) and date-like
         return (rng.choice([0, 0, 0, 1, 2, 10, 10, 256, 257, 300, 20240101, 4294967295]), gen_str(rng, 5), gen_str(rng, 4))
     evr_cases, impl, lines = [], [], []
+    pending = []
+    recent = []          # the comparisons made just before (a failure that needs them replays them first)
+
+    def nodash(n):
+        return gen_str(rng, n).replace("-", "") or "1"
     for _ in range(n_evr):
-        x = gen_evr()
-        y = rng.choice([gen_evr(), (x[0], x[1], mutate(rng, x[2])), (x[0], mutate(rng, x[1]), x[2]), x])
-        n1 = rng.choice(["bash", "kernel"])
-        n2 = n1 if rng.random() < 0.85 else "glibc"
+        forced = None
+        if pending:
+            x, y, forced = pending.pop(0)
+        elif rng.random() < 0.12:
+            # two packages that PRINT alike (epoch:name-version-release) but split differently into version and release,
+            # compared one after the other with the same other side: what a package is compared by is the split fields
+            e, t1, t2, t3 = rng.choice([0, 0, 1, 257]), nodash(2), nodash(2), nodash(2)
+            x, x2 = (e, t1 + "-" + t2, t3), (e, t1, t2 + "-" + t3)
+            y = rng.choice([(e, t1, nodash(2)), (e, t1, mutate(rng, t3)), (e, t1 + "-" + t2, mutate(rng, t3)), x2, x])
+            forced = rng.choice(["bash", "kernel"])
+            pending.append((x2, y, forced))
+            if rng.random() < 0.5:
+                pending.append((y, x, forced))
+                pending.append((y, x2, forced))
+            chk.count("evr:same-print-different-split")
+        else:
+            x = gen_evr()
+            y = rng.choice([gen_evr(), (x[0], x[1], mutate(rng, x[2])), (x[0], mutate(rng, x[1]), x[2]), x])
+        n1 = forced or rng.choice(["bash", "kernel"])
+        n2 = n1 if (forced or rng.random() < 0.85) else "glibc"
         # the two sides are objects of the base class, of the yum-list subclass or of a consumer's subclass, mixed
         c1 = rng.choice(["InstalledRpm", "InstalledRpm", "YumListRpm", "subclass"])
         c2 = rng.choice(["InstalledRpm", "InstalledRpm", "YumListRpm", "subclass"])
         r1, r2 = rng.choice(ROUTES), rng.choice(ROUTES)
         e1, e2 = rng.randrange(15), rng.randrange(15)
         a, b = mk_rpm(n1, x, c1, r1, e1), mk_rpm(n2, y, c2, r2, e2)
+        this = {"n1": n1, "x": x, "n2": n2, "y": y, "c1": c1, "c2": c2, "r1": r1, "r2": r2, "e1": e1, "e2": e2}
         chk.count("evr:repo:" + ("n/a" if not (hasattr(a, "repo") and hasattr(b, "repo")) else "same" if a.repo == b.repo else "differs"))
         chk.count("evr:classes:" + ("same" if c1 == c2 else "mixed"))
         chk.count("evr:made-by:" + r1)
@@ -401,13 +433,15 @@ def run(chk):
             want = ",".join("1" if v else "0" for v in (c == 0, c != 0, c < 0, c <= 0, c > 0, c >= 0))
             if ops != want:
                 chk.failure("operators disagree with rpm_version_compare=%d: %s (eq,ne,lt,le,gt,ge) for %r vs %r" % (c, ops, x, y),
-                            {"op": "ops", "n1": n1, "x": x, "n2": n2, "y": y, "c1": c1, "c2": c2, "r1": r1, "r2": r2, "e1": e1, "e2": e2})
+                            {"op": "ops", "n1": n1, "x": x, "n2": n2, "y": y, "c1": c1, "c2": c2, "r1": r1, "r2": r2, "e1": e1, "e2": e2, "before": list(recent[-3:])})
             ref = sgn(x[0] - y[0]) or c_rpmvercmp(x[1], y[1]) or c_rpmvercmp(x[2], y[2])
             if c != ref:
                 chk.failure("rpm_version_compare(%r,%r)=%d, RPM gives %d (objects made by %s / %s)" % (x, y, c, ref, r1, r2),
-                            {"op": "evr", "x": x, "y": y, "want": ref, "n1": n1, "n2": n2, "c1": c1, "c2": c2, "r1": r1, "r2": r2, "e1": e1, "e2": e2})
+                            {"op": "evr", "x": x, "y": y, "want": ref, "n1": n1, "n2": n2, "c1": c1, "c2": c2, "r1": r1, "r2": r2, "e1": e1, "e2": e2, "before": list(recent[-3:])})
         elif ops != "E,E,E,E,E,E":
-            chk.failure("packages with different names were compared: %s" % ops, {"op": "ops", "n1": n1, "x": x, "n2": n2, "y": y, "c1": c1, "c2": c2, "r1": r1, "r2": r2, "e1": e1, "e2": e2})
+            chk.failure("packages with different names were compared: %s" % ops, {"op": "ops", "n1": n1, "x": x, "n2": n2, "y": y, "c1": c1, "c2": c2, "r1": r1, "r2": r2, "e1": e1, "e2": e2, "before": list(recent[-3:])})
+        recent.append(this)
+        del recent[:-3]
     out = run_driver("C13", lines)
     model = ["%s|%s" % (out[2 * i], out[2 * i + 1]) for i in range(len(evr_cases))]
     chk.compare("evr+operators", evr_cases, impl, model)
@@ -496,6 +530,11 @@ def replay(data):
         print("impl: ab=%d bc=%d ac=%d" % (x, y, z))
         bad = (x <= 0 and y <= 0 and z > 0) or (x >= 0 and y >= 0 and z < 0) or (x == 0 and y == 0 and z != 0)
     elif op in ("ops", "evr"):
+        for h in c.get("before", []):
+            # the comparisons made just before the recorded one, in the same process
+            ha = mk_rpm(h["n1"], tuple(h["x"]), h["c1"], h["r1"], h["e1"])
+            hb = mk_rpm(h["n2"], tuple(h["y"]), h["c2"], h["r2"], h["e2"])
+            print("before: %s vs %s -> compare=%s ops=%s" % (tuple(h["x"]), tuple(h["y"]), rpm_version_compare(ha, hb) if h["n1"] == h["n2"] else "-", ops_impl(ha, hb)))
         x, y = tuple(c["x"]), tuple(c["y"])
         a = mk_rpm(c.get("n1", "p"), x, c.get("c1", "InstalledRpm"), c.get("r1", "dict"), c.get("e1", 0))
         b = mk_rpm(c.get("n2", "p"), y, c.get("c2", "InstalledRpm"), c.get("r2", "dict"), c.get("e2", 0))
